@@ -136,7 +136,9 @@ static void c01(Sink &sink, const Args &a, long c)
     auto w = makeWorld(wseed, kind, hostile, dirBlock ? -2 : narrow ? -3 : cluttered ? -4 : -1);
     // two of every six worlds (those of them with plain inputs) have a validity checker that does not test the bounds (obstacles only): planners that
     // extrapolate or perturb must bring their states back into the space themselves
-    if (!dirBlock && !hostile && (widx % 6 == 4 || widx % 6 == 1))
+    // (not in the Dubins / Reeds-Shepp worlds: an arc of the turning radius through a pose near the edge of the position box
+    // necessarily leaves the box, so there the user's checker is the only thing that can keep a path inside - DESIGN 4/C07)
+    if (!dirBlock && !hostile && (widx % 6 == 4 || widx % 6 == 1) && kind != K_DUBINS && kind != K_RS)
     {
         w->boundsLeftToPlanner = true;
         // half of them with a range of the order of the space (steps that overshoot the box by a little), a sixth with a huge one
